@@ -262,7 +262,7 @@ def run_loopy(ctx, prop):
     # 3. real-size behaviours: one per transition of the (view-reduced) state graphs
     binary = ctx.go_build("internal/transport", name="loopy", only=r"zz_verif_loopy_")
     gens = ctx.pick(["LoopyGenS.cfg", "LoopyGenC.cfg"], ["LoopyGenST.cfg", "LoopyGenCT.cfg", "LoopyGenS2.cfg", "LoopyGenC2.cfg"])
-    per = ctx.pick(1500, 8000)
+    per = ctx.pick(1500, 10000)
     for cfg in gens:
         g = ctx.dump_graph("LoopyMC", cfg, workers=ctx.pick(4, 8))
         c = cfg_consts(ctx, cfg)
